@@ -133,6 +133,8 @@ def _strategy(draw):
         items += pre
         for _ in range(draw(st.integers(0 if i else 1, 2))):
             name = f"M{len(mol_names)}"
+            if mol_names and draw(st.integers(0, 5)) == 0 and mol_names[0].lower() not in mol_names:
+                name = mol_names[0].lower()       # a molecule type whose name differs from another one in case only
             mol_names.append(name)
             items.append(draw(_mol(name)))
             if i < len(paths) - 1 and draw(st.integers(0, 3)) == 0:
